@@ -22,6 +22,7 @@ fn kinds_of(f: &Fault) -> &'static [&'static str] {
         Fault::Dangling => &["NotFound"],
         Fault::ELoop => &["FilesystemLoop", "Uncategorized", "Other"],
         Fault::Cycle { .. } => &["Other"],
+        Fault::LinkToUnreadable => &["PermissionDenied"],
         Fault::RootMissing => &["NotFound", "NotADirectory"],
     }
 }
@@ -34,6 +35,7 @@ fn fault_name(f: &Fault) -> &'static str {
         Fault::Dangling => "dangling-link",
         Fault::ELoop => "self-link",
         Fault::Cycle { .. } => "ancestor-link",
+        Fault::LinkToUnreadable => "link-to-dir-000",
         Fault::RootMissing => "missing-root",
     }
 }
@@ -289,9 +291,34 @@ pub fn generate(rng: &mut Rng, tier: Tier, stats: &mut GenStats) -> Scenario {
         plant_modes(&mut g, &mut tree, &[cwd.clone(), base.clone()]);
     }
     let _ = base_target;
+    // A link that points AT a directory nobody may open (mode 000): the one way a link and a
+    // permission fault meet here (links inside or through restricted directories stay excluded).
+    let mut link_to_000 = false;
+    if links == LinkMode::All && model0.is_dir_node(&base) && g.rng.chance(6, 100) {
+        let m = Model::from_tree(&tree).unwrap();
+        let plain = Gen::plain_dirs(&m);
+        let locked: Vec<String> = tree
+            .iter()
+            .filter(|n| n.kind == Kind::Dir && n.mode == Some(0) && plain.contains(&parent(&n.path).to_string()))
+            .map(|n| n.path.clone())
+            .collect();
+        let homes: Vec<String> = plain.iter().filter(|d| is_under(d, &base)).cloned().collect();
+        if !locked.is_empty() && !homes.is_empty() {
+            let u = g.rng.pick(&locked).clone();
+            let home = g.rng.pick(&homes).clone();
+            let nm = *g.rng.pick(&g.names.clone());
+            let path = join(&home, nm);
+            if !tree.iter().any(|n| n.path == path) && path.len() < 2500 {
+                let target = if g.rng.chance(1, 2) { format!("{}/{}", R, u) } else { Gen::rel_target(&home, &u) };
+                let at = tree.iter().position(|n| is_foreign(&n.path)).unwrap_or(tree.len());
+                tree.insert(at, Node { path, kind: Kind::Link { target }, mode: None });
+                link_to_000 = true;
+            }
+        }
+    }
     let model = Model::from_tree(&tree).unwrap();
     let has_links = tree.iter().any(|n| matches!(n.kind, Kind::Link { .. }));
-    let link = if has_links && (cluster || g.rng.chance(6, 10)) { Link::ReadTarget } else { Link::ReadFile };
+    let link = if has_links && (cluster || link_to_000 || g.rng.chance(6, 10)) { Link::ReadTarget } else { Link::ReadFile };
     let mut w = Walker {
         source: Source::Path,
         base,
@@ -860,6 +887,30 @@ fn source_clauses(
     let faults: Vec<&Visit> = visits.iter().filter(|v| v.fault.is_some()).collect();
     let mut reported: BTreeSet<String> = BTreeSet::new();
     for e in &uv.es {
+        // An error without a path: what walkdir makes of a link to a directory that cannot be
+        // opened. It is attributed to such a fault not yet accounted for (there is nothing else to
+        // go by) — and it does not *name the offending path*, which is reported once per walker
+        // (known finding F12: the path is lost inside walkdir, the crate cannot restore it).
+        if e.path.is_none() {
+            match faults.iter().find(|v| matches!(v.fault, Some(Fault::LinkToUnreadable)) && !reported.contains(&v.path)) {
+                Some(v) => {
+                    reported.insert(v.path.clone());
+                    if e.kind != "PermissionDenied" || e.cycle {
+                        out.violate("C20", "err-sound", wi, format!("path-less error of kind {} (cycle: {})", e.kind, e.cycle), vec![format!("error-kind:{}", v.path)]);
+                    }
+                    out.violate(
+                        "C20",
+                        "err-sound",
+                        wi,
+                        format!("the error for the link {:?} to a directory that cannot be opened names no path: {:?}", v.path, e.display),
+                        vec![format!("pathless:{}", v.path)],
+                    );
+                    out.fire(fault_name(v.fault.as_ref().unwrap()));
+                },
+                None => out.violate("C20", "err-sound", wi, format!("an error item without a path that no planted fault accounts for: {:?}", e.display), vec!["error:<no path>".to_string()]),
+            }
+            continue;
+        }
         let wp = e.wp.clone().unwrap_or_default();
         match faults.iter().find(|v| v.path == wp) {
             Some(v) => {
@@ -924,7 +975,9 @@ fn source_clauses(
         if matches!(f, Fault::RootMissing) {
             // a directory that is not there MAY be reported; a base that is a link whose target is
             // missing is a missing link target: it is reported
-            let dangling_base = matches!(model.get(&w.base).map(|i| &i.kind), Some(Kind::Link { .. }));
+            // (a maximum depth below the glob's prefix makes the walk empty without reading anything)
+            let dangling_base = matches!(model.get(&w.base).map(|i| &i.kind), Some(Kind::Link { .. }))
+                && w.depth.window().1.is_none();
             if dangling_base && uv.es.is_empty() {
                 out.violate(
                     "C20",
@@ -1035,6 +1088,14 @@ fn pass_through(wi: usize, w: &Walker, s: &View, uv: &View, u: &UFeed, ex: &Expe
         let at_dead = dead_dirs.iter().any(|d| wp == *d);
         let may = may_dirs.iter().any(|d| is_under(&wp, d));
         let pos = s_left.iter().position(|se| key(se) == key(ue));
+        if ue.path.is_none() {
+            // an error that names no path (F12) cannot be placed beneath or beside a discarded tree:
+            // it is matched if it came through and is not missed if it did not
+            if let Some(i) = pos {
+                s_left.remove(i);
+            }
+            continue;
+        }
         match pos {
             Some(i) => {
                 s_left.remove(i);
